@@ -99,7 +99,7 @@ def all_half_values(dtype, step=1, offset=0):
 
 
 def scales_for(dtype, rnd):
-    base = [1.0, 0.037109375 * 1.37, 3.0e-5, 2896.0, 0.0078125]
+    base = [1.0, 0.037109375 * 1.37, 3.0e-5, 2.0 ** -17 * 1.03, 2896.0, 0.0078125]
     return [torch.tensor(s, dtype=dtype) for s in base] + [torch.tensor(rnd.uniform(0.001, 20.0), dtype=dtype)]
 
 
@@ -123,7 +123,7 @@ def drive_sym_wide(req):
     # float32: boundary-directed + random
     for qt in qts:
         qtype = qtypes[qt]
-        for sc in [torch.tensor(0.0123, dtype=torch.float32), torch.tensor(1.7, dtype=torch.float32)]:
+        for sc in [torch.tensor(0.0123, dtype=torch.float32), torch.tensor(1.7, dtype=torch.float32), torch.tensor(1e-40, dtype=torch.float32)]:
             pts = []
             if qt == "qint8":
                 grid = torch.arange(-129, 130, dtype=torch.float32)
